@@ -18,18 +18,42 @@ def skey(i):
         if x == 0: break
     return s + ('' if i % 3 else 'x' * (i % 5))
 
+def wkey(i):
+    """24-byte struct keys `a,b,c` compared field by field: the first field ties for runs of five keys, the second decides,
+    and every key differs from every other in its second and third word (a partially moved key is a wrong key)"""
+    return f'{i // 5},{1000 + 3 * i},{2000 - i}'
+
+def kindkey(kind):
+    return {'i': ikey, 's': skey, 'w': wkey}[kind[0]]
+
+def vwidth(kind):
+    return int(kind[1:]) if len(kind) > 1 else 1
+
+def val(kind, v):
+    """a value of the tree's value type made from the number v: every 8-byte word distinct, and distinct from the word at
+    the same place in the value made from any other number"""
+    w = vwidth(kind)
+    return ','.join(str(v if j == 0 else v * 7 + j * 1000003) for j in range(w))
+
+KINDS_EQ = ('i', 's')                                  # key and value of the same size (8/8)
+KINDS_NE = ('i3', 'w', 'i5', 's3', 'w5', 'w3')          # 8/24, 24/8, 8/40, 8/24, 24/40, 24/24
+
 class Gen:
     """builds one op file; keeps the key sets it created so that removals mostly hit (no shape knowledge)"""
-    def __init__(self, rng, strkeys, auto=True):
-        self.rng = rng; self.str = strkeys; self.lines = []; self.keys = {}
+    def __init__(self, rng, kind, auto=True):
+        if kind is False: kind = 'i'
+        if kind is True: kind = 's'
+        self.rng = rng; self.kind = kind; self.lines = []; self.keys = {}
+        self._k = kindkey(kind)
         if not auto: self.lines.append('auto 0')
-    def k(self, i): return skey(i) if self.str else ikey(i)
+    def k(self, i): return self._k(i)
+    def v(self, v): return val(self.kind, v)
     def new(self, t, init=()):
         self.keys[t] = set(i for i, _ in init)
-        self.lines.append(f"new {t} {'s' if self.str else 'i'}" + ''.join(f' {self.k(i)} {v}' for i, v in init))
+        self.lines.append(f"new {t} {self.kind}" + ''.join(f' {self.k(i)} {self.v(v)}' for i, v in init))
     def set(self, t, i, v=None):
         if v is None: v = self.rng.randrange(-1000, 1000)
-        self.keys[t].add(i); self.lines.append(f'set {t} {self.k(i)} {v}')
+        self.keys[t].add(i); self.lines.append(f'set {t} {self.k(i)} {self.v(v)}')
     def rem(self, t, i):
         self.keys[t].discard(i); self.lines.append(f'rem {t} {self.k(i)}')
     def op(self, s): self.lines.append(s)
@@ -72,6 +96,7 @@ def c_random(rng, strkeys, nops, universe, p_set=0.5, auto=True, check_every=0):
             else: g.rem(0, rng.choice(U))
         elif r < p_set + 0.40: g.op(rng.choice(['remroot 0', 'rem2 0']))
         elif r < p_set + 0.47 and auto: g.iters(0)
+        elif r < p_set + 0.48: g.op('assign 0 0')
         else: g.probes(0, U)
         if check_every and j % check_every == check_every - 1: g.op('check 0')
     if not auto: g.op('check 0'); g.iters(0)
@@ -125,6 +150,7 @@ def c_assign_copy(rng, strkeys, n):
         if rng.random() < 0.5: g.set(t, rng.randrange(3 * n))
         elif g.keys[t]: g.rem(t, rng.choice(sorted(g.keys[t])))
     for t in range(3): g.op(f'check {t}'); g.iters(t)
+    g.op('assign 1 1'); g.op('check 1')                # assign(t, t) leaves t as it is
     g.op('assign 0 2'); g.keys[0] = set(g.keys[2])
     g.op('resize 2 0'); g.op('check 0'); g.op('resize 1 5'); g.op('check 1')
     g.op('assign 0 2'); g.op('len 0')                  # assign from an empty tree
@@ -139,19 +165,68 @@ def c_mixed_types(rng):
     a.new(0, [(i, i) for i in range(6)]); b.new(1, [(i, -i) for i in range(9)])
     lines += a.lines + b.lines
     lines += ['assign 0 1', 'iter 0', f'set 0 {skey(100)} 5', f'rem 0 {skey(3)}', 'check 0', 'check 1',
-              'new 2 i 5 1 3 2 9 3', 'assign 1 2', 'set 1 4 4', 'riter 1', 'check 1', 'bogus 1', 'set 9 1 1', 'set 0', 'new 3 q']
+              'new 2 i 5 1 3 2 9 3', 'assign 1 2', 'set 1 4 4', 'riter 1', 'check 1', 'bogus 1', 'set 9 1 1', 'set 0', 'new 3 q',
+              'new 3 i4', 'new 3 i3 1 1,2', 'new 3 w 1,2 3', 'set 1 4 4,5,6', 'set 1 4,5,6 4']
     return lines
 
-def c_exhaustive(n, strkeys, chunk):
+def c_mixed_sizes(rng, n):
+    """trees whose key and value types have different sizes exchange contents by assign / copy: the destination takes over
+    the types (and ksize / vsize) of the source, and removals of two-children nodes follow in the new layout"""
+    kinds = list(KINDS_NE) + ['i']
+    rng.shuffle(kinds)
+    gens = [Gen(rng, k) for k in kinds[:4]]
+    lines = []
+    for t, g in enumerate(gens):
+        g.new(t, [(i, i * 3 + t) for i in rng.sample(range(3 * n), n)])
+        lines += g.lines; g.lines = []
+    kind = {t: g.kind for t, g in enumerate(gens)}
+    keys = {t: set(g.keys[t]) for t, g in enumerate(gens)}
+    def emit(t, fn):
+        g = Gen(rng, kind[t]); g.keys[t] = keys[t]; fn(g); keys[t] = g.keys[t]; lines.extend(g.lines)
+    for rnd in range(6):
+        t, s2 = rng.sample(range(4), 2)
+        if rng.random() < 0.5: lines.append(f'assign {t} {s2}')
+        else: lines.append(f'copy {t} {s2}')
+        lines.append(f'assign {s2} {s2}')
+        kind[t] = kind[s2]; keys[t] = set(keys[s2])
+        for _ in range(n // 2):
+            u = rng.randrange(4)
+            r = rng.random()
+            if r < 0.35: emit(u, lambda g: g.set(u, rng.randrange(3 * n)))
+            elif r < 0.7: lines.append(rng.choice([f'rem2 {u}', f'rem2 {u}', f'remroot {u}']))
+            elif keys[u]: emit(u, lambda g: g.rem(u, rng.choice(sorted(g.keys[u]))))
+        for u in range(4): lines += [f'check {u}']
+        lines += [f'iter {t}', f'riter {s2}']
+    return lines
+
+def c_relocate(rng, kind, n):
+    """removals that relocate the predecessor (node with two children), each followed by reads of every remaining key,
+    by updates in place, and by copies of the tree that has just been through the relocation"""
+    g = Gen(rng, kind); g.new(0)
+    ks = list(range(n)); rng.shuffle(ks)
+    for i in ks: g.set(0, i, i)
+    for j in range(n):
+        if rng.random() < 0.75: g.op('rem2 0')
+        else: g.op('remroot 0')
+        if j % 4 == 1:
+            for i in sorted(g.keys[0])[:: max(1, n // 6)]: g.op(f'get 0 {g.k(i)}')
+        if j % 5 == 2: g.op('copy 1 0'); g.op('check 1'); g.op('rem2 1'); g.op('iter 1')
+        if j % 7 == 3: g.set(0, rng.randrange(n))
+        if j % 8 == 5: g.op('assign 0 0')
+        if j % 9 == 4: g.op('new 2 ' + kind); g.op('assign 2 0'); g.op('rem2 2'); g.op('riter 2')
+    g.iters(0)
+    return g.lines
+
+def c_exhaustive(n, kind, chunk):
     """every insertion order of n keys, each followed by a different removal order"""
     lines = []
-    k = skey if strkeys else ikey
+    k = kindkey(kind)
     perms = list(itertools.permutations(range(n)))
     for idx in chunk:
         ins = perms[idx % len(perms)]
         rm = perms[(idx * 7 + 3) % len(perms)]
-        lines.append(f"new 0 {'s' if strkeys else 'i'}")
-        lines += [f'set 0 {k(i)} {i}' for i in ins]
+        lines.append(f"new 0 {kind}")
+        lines += [f'set 0 {k(i)} {val(kind, i)}' for i in ins]
         lines += [f'rem 0 {k(i)}' for i in rm]
     return lines
 
@@ -175,7 +250,7 @@ def c_big(rng, strkeys, n, nops):
         else: g.probes(0, range(n))
         if j % every == every - 1: g.op('check 0')
     g.op('check 0'); g.iters(0)
-    g.op('copy 1 0'); g.op('check 1')
+    g.op('copy 1 0'); g.op('check 1'); g.op('assign 0 0'); g.op('check 0')
     return g.lines
 
 class C03(Spec):
@@ -187,7 +262,8 @@ class C03(Spec):
                  'state-by-state differential check (shape, colours, values after every operation) and a direct oracle in C')
     level_text = ('Theorems C03_refines_ordered_map / C03_iteration / C03_balanced (lean/CelloProofs/Props/C03.lean): for every history of '
                   'new/set/rem/get/mem/len/resize/assign/copy/iteration over any number of trees and any lawful key comparison, the model of '
-                  'Tree.c (zipper mirror of Tree_Set, Tree_Set_Fix, Tree_Rem, Tree_Rem_Fix, the parent-link iteration walks) never '
+                  'Tree.c (zipper mirror of Tree_Set, Tree_Set_Fix, Tree_Rem with its predecessor memcpy as a block move over the node payload, '
+                  'Tree_Rem_Fix, the parent-link iteration walks; keys and values of arbitrary types and widths) never '
                   'dereferences NULL, yields exactly the observations of a strictly sorted association list (KeyError exactly for absent '
                   'keys, forward iteration = the strictly monotone key sequence, backward = its reverse) and keeps every tree a valid '
                   'red-black tree with height <= 2*log2(n+1). The model is tied to the C code by comparing the complete concrete tree '
@@ -195,12 +271,16 @@ class C03(Spec):
     level_note = ('Trusted: Lean kernel; the correspondence between Tree.c and the zipper model is established by testing (white-box '
                   'dump equality after every op), not by proof; parent links are not in the functional model: the harness checks '
                   'parent(child)==node on every dump and iteration (which walks them) is compared op by op; cmp of Int/String is '
-                  'assumed lawful (C09). Self-assignment assign(t,t) empties the tree (reported as known-finding candidate) and is '
-                  'excluded from the histories of the refinement theorem.')
-    rule = ('op files over Int and String keys: ascending / descending / alternating insertion then removal; random set/rem/get/mem/len/'
+                  'assumed lawful (C09). Self-assignment assign(t,t) is part of the histories (no-op since the fix a3140e4; the '
+                  'behaviour before the fix is kept as an explicit old variant with its refuted witness).')
+    rule = ('op files over Int, String and 24-byte struct keys (own lexicographic Cmp) with Int, 24-byte and 40-byte plain struct '
+            'values, i.e. node layouts with ksize = vsize and with ksize != vsize in both directions; every 8-byte word of every '
+            'value (and struct key) is distinct, and whole keys and whole values are dumped and compared after every op; '
+            'histories: ascending / descending / alternating insertion then removal; random set/rem/get/mem/len/'
             'iter mixes over small and large key universes; remove-root and remove-node-with-two-children chosen white-box (remroot, '
-            'rem2); drain-to-empty-and-refill by rem, by root removal and by resize(t,0); assign/copy between trees (also across key '
-            'types); every insertion order of n<=6 keys followed by a removal order; large trees (hash dumps). After every mutating op '
+            'rem2; relocation-heavy histories: rem2 / remroot followed by get of the remaining keys, copy and assign of the tree '
+            'that has just relocated a predecessor); drain-to-empty-and-refill by rem, by root removal and by resize(t,0); '
+            'assign/copy between trees (also across key types and across layouts: the destination takes over ksize/vsize); every insertion order of n<=6 keys followed by a removal order; large trees (hash dumps). After every mutating op '
             'the whole concrete tree is dumped and compared with the model, and the C oracle checks map contents, KeyError, iteration '
             'both ways, order, root colour, red-red, black heights, parent links, node count and the height bound. '
             'non-trivial item = a successful set or rem whose resulting tree holds >= 2 bindings (so that a fix-up, a rotation or a '
@@ -210,11 +290,17 @@ class C03(Spec):
                     'tree after every operation)',
                     'parent pointers are represented by the zipper path; parent(child)==node is checked on the C side on every dump',
                     'Int_Cmp / strcmp behave as the lawful total orders `compare` on Int / String (property C09)',
-                    'memory management of keys/values (destruct, memcpy of the predecessor, free) is checked by ASan only (C05)')
-    assumptions = ('keys are Int or ASCII Strings without blanks, values Int; one key type per tree at a time',
+                    'destruct / free of keys and values is checked by ASan only (C05); the predecessor memcpy of Tree_Rem is modelled '
+                    '(relocate: block move of header+key+header+value words with the widths from the Tree) and compared word by word',
+                    'the node layout (3 link words, sizeof(struct Header), Tree_Key / Tree_Val offsets, width of the moved block) is '
+                    'written by hand in the model (Lay, entryWords, relocate): no translator generator extracts it from Tree.c; it is '
+                    'tied to the code by the differential check on layouts with ksize != vsize')
+    assumptions = ('keys are Int, ASCII Strings without blanks or a 24-byte plain struct with a lexicographic Cmp instance; values are '
+                   'Int or 24- / 40-byte plain structs; one key type and one value type per tree at a time; set is only given keys '
+                   'and values of the tree\'s types (cast raises otherwise: hypothesis WellTyped of the theorems)',
+                   'sizes of key and value types are multiples of 8 (the model counts 8-byte words); other sizes misalign the '
+                   'value header (known finding KF-C19-tree-misaligned-header) and are not generated',
                    'single thread; no allocation failure',
-                   'assign(t, t) is not generated: Tree_Assign clears the destination before reading the source, so self-assignment '
-                   'empties the tree (known-finding candidate KF-C03-self-assign, witness corpus/kf_c03_self_assign.ops)',
                    'nitems below 2^63')
 
     def cases(self, rng, tier, boost=1):
@@ -235,23 +321,46 @@ class C03(Spec):
                 add('drain', c_drain_refill(rng, strkeys, 24 if quick else 120, 3 if quick else 9))
                 add('assign', c_assign_copy(rng, strkeys, 12 if quick else 80))
             add('mixed', c_mixed_types(rng))
+            # key and value types of different sizes: the node layout (Tree_Key / Tree_Val offsets, the block that Tree_Rem
+            # relocates) is only exercised when ksize != vsize
+            for kind in KINDS_NE:
+                add('ne_reloc_' + kind + '_', c_relocate(rng, kind, 24 if quick else 160))
+                add('ne_rand_' + kind + '_', c_random(rng, kind, 250 if quick else 3000, rng.choice([14, 40]) if quick else rng.choice([14, 60, 300])))
+                add('ne_two_' + kind + '_', c_remove_two_children(rng, kind, 30 if quick else 200))
+                add('ne_assign_' + kind + '_', c_assign_copy(rng, kind, 12 if quick else 80))
+                if rep % 2 == 0 or not quick:
+                    add('ne_root_' + kind + '_', c_remove_root(rng, kind, 30 if quick else 200))
+                    add('ne_drain_' + kind + '_', c_drain_refill(rng, kind, 16 if quick else 100, 3 if quick else 6))
+                    add('ne_seq_' + kind + '_', c_sequential(rng, kind, rng.choice([17, 33] if quick else [64, 150, 300]),
+                                                             rng.choice(['asc', 'desc', 'alt'])))
+            add('ne_mixed', c_mixed_sizes(rng, 10 if quick else 40))
         # exhaustive insertion orders
         import math
+        allkinds = KINDS_EQ + KINDS_NE
         for n in ([3, 4, 5] if quick else [3, 4, 5, 6]):
             total = math.factorial(n)
             idxs = list(range(total))
             if n >= 6 and quick: idxs = rng.sample(idxs, 150)
             for i in range(0, len(idxs), 120):
-                add(f'perm{n}_', c_exhaustive(n, (i // 120) % 2 == 1, idxs[i:i+120]))
+                # Int and String keys with Int values alternate as before; every third chunk uses a layout with ksize != vsize
+                c = i // 120
+                kind = KINDS_NE[(c // 3) % len(KINDS_NE)] if c % 3 == 2 else KINDS_EQ[c % 2]
+                add(f'perm{n}_', c_exhaustive(n, kind, idxs[i:i+120]))
+            if n <= 4:
+                for kind in KINDS_NE:
+                    add(f'perm{n}{kind}_', c_exhaustive(n, kind, idxs[:120]))
         # large trees
         if quick:
             add('big', c_big(rng, False, 3000, 3000))
             add('bigs', c_big(rng, True, 1500, 1500))
+            add('bigne', c_big(rng, rng.choice(KINDS_NE), 1200, 1500))
         else:
             for rep in range(2 * boost):
                 add('big', c_big(rng, False, 100000, 120000))
                 add('bigs', c_big(rng, True, 30000, 50000))
                 add('bigm', c_big(rng, False, 20000, 150000))
+                add('bigne', c_big(rng, 'i3', 20000, 40000))
+                add('bigne', c_big(rng, 'w5', 10000, 30000))
         return cs
 
     @staticmethod
@@ -280,8 +389,13 @@ class C03(Spec):
                 else: acc[k] = acc.get(k, 0) + v
         kind = case.name.rstrip('0123456789')
         acc['cases_' + kind] = acc.get('cases_' + kind, 0) + 1
-        if any('s' == (l.split() + ['', '', ''])[2] for l in case.lines if l.startswith('new ')):
+        kinds = set((l.split() + ['', '', ''])[2] for l in case.lines if l.startswith('new '))
+        if any(k.startswith('s') for k in kinds):
             acc['cases_with_string_keys'] = acc.get('cases_with_string_keys', 0) + 1
+        if any(k in KINDS_NE and k != 'w3' for k in kinds):
+            acc['cases_with_ksize_ne_vsize'] = acc.get('cases_with_ksize_ne_vsize', 0) + 1
+        if any(k.startswith('w') for k in kinds):
+            acc['cases_with_struct_keys'] = acc.get('cases_with_struct_keys', 0) + 1
         for l in core.lines_with('S branches', m_out):
             for kv in l.split()[2:]:
                 k, v = kv.rsplit('=', 1)
